@@ -98,7 +98,10 @@ def register(reg):
                  assumes_inv=False, maintains_inv=False, trusted='A-CALLEE: DB.log_flush_stats only logs')
     reg.contract(
         DBK + '.flush_backup', params={'flush_data': Obj(FD), 'touched': Set(KBytes)},
-        requires=['flush_data.state.height >= 0',
+        requires=['flush_data.state.height >= 0', 'flush_data.state.tx_count >= 0',
+                  ('touched-are-script-hashes', 'forall(lambda x=Bytes: implies(x in touched, len(x) == 11))'),
+                  ('history-rows-are-whole-entries', 'forall(lambda k=Bytes: implies(k in self.history.db.g_map and k != STATEKEY, '
+                                                     'mod(len(lookup(self.history.db.g_map, k)), 5) == 0))'),
                   ('undo-heights', 'forall(lambda j=Int: implies(0 <= j and j < len(flush_data.undo_infos), '
                                    '0 <= flush_data.undo_infos[j][1] and flush_data.undo_infos[j][1] < 4294967296))')],
         raises={'AssertionError': ['self.utxo_db.g_commits == old(self.utxo_db.g_commits)',
